@@ -24,6 +24,15 @@ type taskKey struct{}
 
 type userKey struct{}
 
+// scopeKey holds a request-scope object of the caller that itself implements context.Context
+// (like the request contexts of web frameworks): a value like any other.
+type scopeKey struct{}
+
+type requestScope struct {
+	context.Context
+	id int
+}
+
 type resumeMsg struct {
 	fault error // non-nil: the pending backend call must fail with this error
 }
@@ -200,6 +209,7 @@ type buildRec struct {
 	ctxErr      error
 	hasDeadline bool
 	userVal     interface{}
+	scopeVal    interface{} // ctx.Value(scopeKey{}): a caller value whose dynamic type implements context.Context
 	skipRead    bool
 	detachedBG  bool
 	ttlAfter    time.Duration
@@ -916,7 +926,7 @@ func (w *world) builderFor(g *getSpec, t *task) func(ctx context.Context) (strin
 		rec := &buildRec{
 			key: key, task: tn, getIdx: g.idx, n: n, enterStep: w.s.step, exitStep: -1,
 			ctxTTL: cache.TTL(ctx), ctxDoneNil: ctx.Done() == nil, ctxErr: ctx.Err(),
-			userVal: ctx.Value(userKey{}), skipRead: cache.SkipRead(ctx),
+			userVal: ctx.Value(userKey{}), scopeVal: ctx.Value(scopeKey{}), skipRead: cache.SkipRead(ctx),
 		}
 		_, rec.hasDeadline = ctx.Deadline()
 		l.inflight[key]++
@@ -1013,6 +1023,7 @@ func (w *world) startGet(g *getSpec) {
 
 	ctx = context.WithValue(ctx, taskKey{}, g.idx)
 	ctx = context.WithValue(ctx, userKey{}, fmt.Sprintf("user-%d", g.idx))
+	ctx = context.WithValue(ctx, scopeKey{}, &requestScope{Context: context.Background(), id: g.idx})
 
 	if g.ttl != 0 || g.ttlCell {
 		ctx = cache.WithTTL(ctx, g.ttl, false)
